@@ -242,7 +242,7 @@ def run(chk: core.Check):
     chk.stages["correspondence_generate"] = {"cases": len(reqs), "corpus": len(corpus), "dash_runs": n_dash}
 
     # ---- validate the model of curl against the real binary, and search end to end
-    rec = Recorder()
+    rec = Recorder(lambda item: (200, [], b""))   # empty payloads: `curl -X HEAD` waits for Content-Length bytes that never come
     try:
         n_curl = 60 if quick else 600
         if chk.broken:
@@ -262,8 +262,6 @@ def run(chk: core.Check):
                     v = "u"
                 hs[k] = v
             r["headers"] = hs
-            if r["method"] in ("HEAD",):
-                r["method"] = "GET"
             path = "".join(ch for ch in r["url"][len("http://127.0.0.1/") :] if (ch.isalnum() and ord(ch) < 128) or ch in "%-._~=&?/")
             # automatic header names with arbitrary values (Content-Length: junk) only make curl/the server bail out
             r["headers"] = {k: v for k, v in r["headers"].items() if k.lower() not in NOISE}
@@ -329,27 +327,28 @@ def run(chk: core.Check):
         chk.known(f, witness_fails(f["witness"]))
 
 
+E2E_METHODS = ["POST", "PUT", "PATCH", "DELETE", "GET", "HEAD", "OPTIONS", "TRACE"]
+
+
 def build_schema(base_url):
     import schemathesis
 
     raw = {
         "openapi": "3.0.2",
         "info": {"title": "t", "version": "1"},
-        "paths": {
-            "/items/{id}": {
-                "post": {
-                    "parameters": [
-                        {"name": "id", "in": "path", "required": True, "schema": {"type": "string"}},
-                        {"name": "q", "in": "query", "schema": {"type": "string"}},
-                        {"name": "X-A", "in": "header", "schema": {"type": "string"}},
-                        {"name": "c", "in": "cookie", "schema": {"type": "string"}},
-                    ],
-                    "requestBody": {"content": {"application/json": {"schema": {}}, "text/plain": {"schema": {"type": "string"}}}},
-                    "responses": {"200": {"description": "ok"}},
-                }
-            }
-        },
+        "paths": {"/items/{id}": {}},
     }
+    for method in E2E_METHODS:
+        raw["paths"]["/items/{id}"][method.lower()] = {
+            "parameters": [
+                {"name": "id", "in": "path", "required": True, "schema": {"type": "string"}},
+                {"name": "q", "in": "query", "schema": {"type": "string"}},
+                {"name": "X-A", "in": "header", "schema": {"type": "string"}},
+                {"name": "c", "in": "cookie", "schema": {"type": "string"}},
+            ],
+            "requestBody": {"content": {"application/json": {"schema": {}}, "text/plain": {"schema": {"type": "string"}}}},
+            "responses": {"200": {"description": "ok"}},
+        }
     schema = schemathesis.openapi.from_dict(raw)
     schema.configure(base_url=base_url)
     schema.output_config = schema.output_config.replace(sanitize=False)
@@ -362,7 +361,7 @@ def e2e_once(rec, schema, parts):
 
     from schemathesis.core import NOT_SET
 
-    op = schema["/items/{id}"]["POST"]
+    op = schema["/items/{id}"][parts.get("method", "POST")]
     kwargs = dict(
         path_parameters={"id": parts["id"]},
         query={"q": parts["q"]} if parts.get("q") is not None else None,
@@ -435,6 +434,7 @@ def end_to_end(chk, rec, n):
             "q": rng.choice([None, t()]),
             "headers": rng.choice([None, {"X-A": hv}, {"X-A": hv, "X-B": rng.choice(["", "1", "'"])}]),
             "cookie": rng.choice([None, "".join(ch for ch in t() if ord(ch) < 128 and ch not in '";,\\ ')]),
+            "method": E2E_METHODS[i % len(E2E_METHODS)] if i < 2 * len(E2E_METHODS) else rng.choice(E2E_METHODS),
         }
         kind = rng.random()
         if kind < 0.3:
@@ -470,13 +470,14 @@ def printed_report(chk, rec, n):
 
     schema = build_schema(rec.url)
     rng = chk.rng
-    op = schema["/items/{id}"]["POST"]
+    ops = [schema["/items/{id}"][m] for m in E2E_METHODS]
     done = bad = 0
 
     def always_fails(ctx, response, case):
         raise AssertionError("force a report")
 
     for i in range(n):
+        op = ops[i % len(ops)]
         lines = rng.randint(1, 4)
         body = "\n".join(rng.choice(["", "a: 1", "  - x", "key:", "'q' \"d\" $HOME `id`", "\ttab", "    four"]) for _ in range(lines))
         if body.startswith("@") or body == "":
@@ -596,7 +597,7 @@ def engine_reports(chk, n):
 
 
 def witness_fails(w) -> bool:
-    rec = Recorder()
+    rec = Recorder(lambda item: (200, [], b""))   # empty payloads: `curl -X HEAD` waits for Content-Length bytes that never come
     try:
         schema = build_schema(rec.url)
         first, second, cmd, rc = e2e_once(rec, schema, w)
